@@ -8,7 +8,7 @@ ID = "C08"
 GEN_TAGS = ["PolyGen"]
 PROOF_TARGETS = ["proofs/PolyInterpAlg.vo", "proofs/PolyInterpBase.vo", "proofs/PolyInterpProofs.vo",
                  "proofs/PolyDeepenDiv.vo", "proofs/PolyDeepenInterp.vo", "proofs/PolyDeepenNewton.vo",
-                 "proofs/PolyDeepenFmci.vo", "proofs/PolyDeepenBary.vo", "proofs/PolyDeepenColinear.vo", "proofs/PolyDeepenCodec.vo"]
+                 "proofs/PolyDeepenFmci.vo", "proofs/PolyDeepenBary.vo", "proofs/PolyDeepenColinear.vo", "proofs/PolyDeepenCodec.vo", "proofs/PolyDeepenXfe.vo"]
 PROPS_FILE = "props/C08.v"
 EXTRA_PROPS_FILES = ["props/C08b.v"]
 EXTRACT = "extract/ExtractC08.vo"
@@ -69,7 +69,7 @@ ASSUMPTIONS = [
     "Definitions: as stated they lack hypotheses the proofs need (reduce must return THE remainder, not only a congruent "
     "polynomial, so that products stay in the range of multiply; compatibility wr(l+1)^2 = wr(l) of the roots; base-field "
     "arithmetic on offsets and `slift` denote field arithmetic) - the proved theorems state them explicitly and discharge "
-    "them for BFieldElement. Still open: the XFieldElement instances of the C08 strategies",
+    "them for BFieldElement and XFieldElement. The XFieldElement instances of every strategy are C08_xfe_* (proofs/PolyDeepenXfe.v)",
 ]
 RULE = ("n in {0,1,2,15,16,17,99,100,101,255,256,257} (thorough: 4095,4096,4097,8192) for every zerofier and interpolation "
         "strategy over arithmetic-progression, geometric-progression and random duplicate-free domains, duplicate abscissae, "
